@@ -462,10 +462,12 @@ func slices(quick bool) []slice {
 	}
 	// focused alphabets, deeper
 	out = append(out,
-		slice{name: "tokens", ops: cat([]op{
-			mk(kAddTok, A, 0, 0, 5), mk(kSubTok, A, 0, 0, 5), mk(kAddTok, A, 1, 0, 5), mk(kSetTok, A, 0, 0, 0),
-			mk(kAddBal, A, 0, 0, 3), mk(kSuicide, A, 0, 0, 0), mk(kCreate, A, 0, 0, 0)},
-			ctrl(2, false, 2)), quickD: 6, thorD: 7},
+		slice{name: "logs", ops: []op{
+			mk(kAddLog, 0, 0, 0, 0), mk(kCopySwitch, 0, 0, 0, 0), mk(kSwitch, 0, 0, 0, 0), mk(kSwitch, 0, 0, 0, 1), mk(kSnapshot, 0, 0, 0, 0), mk(kRevert, 0, 0, 0, 0)},
+			quickD: 7, thorD: 10},
+		slice{name: "selfdestruct-recreate", ops: []op{
+			mk(kAddBal, A, 0, 0, 3), mk(kSuicide, A, 0, 0, 0), mk(kSnapshot, 0, 0, 0, 0), mk(kRevert, 0, 0, 0, 0), mk(kIRoot, 0, 0, 0, 0), mk(kCommit, 0, 0, 0, 0)},
+			quickD: 7, thorD: 10},
 		slice{name: "storage-code", ops: cat([]op{
 			mk(kSetState, A, 0, 0, 1), mk(kSetState, A, 0, 0, 2), mk(kSetState, A, 0, 0, 0), mk(kSetState, A, 0, 1, 1),
 			mk(kSetCode, A, 0, 0, 1), mk(kSuicide, A, 0, 0, 0), mk(kCreate, A, 0, 0, 0)},
@@ -483,12 +485,11 @@ func slices(quick bool) []slice {
 			mk(kAddBal, A, 0, 0, 3), mk(kSubBal, A, 0, 0, 3), mk(kAddBal, B, 0, 0, 3), mk(kAddTok, A, 0, 0, 5), mk(kAddTok, B, 0, 0, 5),
 			mk(kSubTok, B, 0, 0, 5), mk(kSuicide, A, 0, 0, 0)},
 			ctrl(2, false, 2)), quickD: 5, thorD: 6},
-		slice{name: "logs", ops: []op{
-			mk(kAddLog, 0, 0, 0, 0), mk(kCopySwitch, 0, 0, 0, 0), mk(kSwitch, 0, 0, 0, 0), mk(kSwitch, 0, 0, 0, 1), mk(kSnapshot, 0, 0, 0, 0), mk(kRevert, 0, 0, 0, 0)},
-			quickD: 7, thorD: 10},
-		slice{name: "selfdestruct-recreate", ops: []op{
-			mk(kAddBal, A, 0, 0, 3), mk(kSuicide, A, 0, 0, 0), mk(kSnapshot, 0, 0, 0, 0), mk(kRevert, 0, 0, 0, 0), mk(kIRoot, 0, 0, 0, 0), mk(kCommit, 0, 0, 0, 0)},
-			quickD: 7, thorD: 10},
+		// the largest search last: under a tight budget the deadline cuts here
+		slice{name: "tokens", ops: cat([]op{
+			mk(kAddTok, A, 0, 0, 5), mk(kSubTok, A, 0, 0, 5), mk(kAddTok, A, 1, 0, 5), mk(kSetTok, A, 0, 0, 0),
+			mk(kAddBal, A, 0, 0, 3), mk(kSuicide, A, 0, 0, 0), mk(kCreate, A, 0, 0, 0)},
+			ctrl(2, false, 2)), quickD: 6, thorD: 7},
 	)
 	return out
 }
